@@ -144,7 +144,9 @@ class Gen:
         self.subs = [str(tbl.of(c)) for c in fx.CONTAINER_SUBS]
         self.unhashable_subs = {str(tbl.of(c)) for c in (fx.MyList, fx.MySet, fx.MyDict, fx.MyDefaultDict)}
         self.classobjs = self.plain + [INT, "0", NONE, str(tbl.of(fx.MyList))]
-        self.strs = ["a", "b", "c", "d", "e", "f", "g", "h", "i", "j", "k", "l", "m", "", "a b", "é"]
+        # keys: identifiers, and strings a class-syntax TypedDict cannot have as field names (a dash, a keyword, a leading digit,
+        # a blank, the empty string)
+        self.strs = ["a", "b", "c", "d", "e", "f", "g", "h", "i", "j", "k", "l", "m", "_n", "", "a b", "é", "a-b", "class", "1x"]
 
     def atom(self, need_hashable=False):
         r = self.rng.random()
